@@ -17,7 +17,7 @@ from ..refmodels import weighted_quantile_ok
 from ..runner import Check
 
 P = 'C07'
-PRIORS = ['uniform', 'normal', 'child-norm', 'child-unif']
+PRIORS = ['uniform', 'normal', 'child-norm', 'child-unif', 'child-scale']
 
 
 def strat(tier):
@@ -52,6 +52,8 @@ def _kinds(case):
         k = case['priors'][i]
         if k.startswith('child') and i == 0:
             k = 'normal'
+        if k == 'child-scale' and out[-1] != 'uniform':
+            k = 'child-norm'          # a scale argument needs a positive-support parent
         out.append(k)
     return out
 
@@ -67,6 +69,8 @@ def build(case):
             p = elfi.Prior('norm', 0, 2, model=m, name=pn)
         elif k == 'child-norm':
             p = elfi.Prior('norm', ps[-1], 0.5, model=m, name=pn)
+        elif k == 'child-scale':
+            p = elfi.Prior('norm', 0, ps[-1], model=m, name=pn)        # the bounded parent is the child's scale
         else:
             p = elfi.Prior('uniform', ps[-1], 1, model=m, name=pn)
         ps.append(p)
@@ -78,24 +82,28 @@ def build(case):
     return m
 
 
-def prior_pdf(case, names, th):
-    """Joint prior density of the rows of th (columns in the order `names`), directly from the description."""
+def prior_logpdf(case, names, th):
+    """Joint prior LOG density of the rows of th (columns in the order `names`), directly from the description;
+    -inf outside the support (log densities: a legitimate particle can have a density that underflows to 0)."""
     col = {n: th[:, i] for i, n in enumerate(names)}
-    tot = np.ones(len(th))
+    tot = np.zeros(len(th))
     prev = None
-    for pn, k in zip(case['pnames'], _kinds(case)):
-        x = col[pn]
-        if k == 'uniform':
-            v = ss.uniform(0, 1).pdf(x)
-        elif k == 'normal':
-            v = ss.norm(0, 2).pdf(x)
-        elif k == 'child-norm':
-            v = ss.norm(col[prev], 0.5).pdf(x)
-        else:
-            v = ss.uniform(col[prev], 1).pdf(x)
-        tot = tot * v
-        prev = pn
-    return tot
+    with np.errstate(all='ignore'):
+        for pn, k in zip(case['pnames'], _kinds(case)):
+            x = col[pn]
+            if k == 'uniform':
+                v = ss.uniform(0, 1).logpdf(x)
+            elif k == 'normal':
+                v = ss.norm(0, 2).logpdf(x)
+            elif k == 'child-norm':
+                v = ss.norm(col[prev], 0.5).logpdf(x)
+            elif k == 'child-scale':
+                v = np.where(col[prev] > 0, ss.norm(0, np.where(col[prev] > 0, col[prev], 1.0)).logpdf(x), -np.inf)
+            else:
+                v = ss.uniform(col[prev], 1).logpdf(x)
+            tot = tot + v
+            prev = pn
+    return np.where(np.isnan(tot), -np.inf, tot)
 
 
 def wvar(x, w):
@@ -158,9 +166,11 @@ def run_case(case):
         w = np.asarray(p.weights, dtype=float)
         if th.shape[0] != n or disc.shape != (n,) or w.shape != (n,):
             raise Violation('C07:population-size', 'population %d has %r particles / %r discrepancies / %r weights, n_samples=%d; %s' % (i, th.shape[0], disc.shape, w.shape, n, ctx))
-        pd = prior_pdf(case, names, th)
-        if not np.all(pd > 0):
-            bad = th[~(pd > 0)][0]
+        lpd = prior_logpdf(case, names, th)
+        with np.errstate(all='ignore'):
+            pd = np.exp(lpd)
+        if not np.all(np.isfinite(lpd)):
+            bad = th[~np.isfinite(lpd)][0]
             raise Violation('C07:particle-outside-prior-support', 'population %d contains the particle %r with prior density 0; %s' % (i, bad.tolist(), ctx))
         # threshold in force
         user_t = None if ths is None else ths[i]
@@ -198,12 +208,16 @@ def run_case(case):
             q = np.zeros(n)
             for wj, mj in zip(wn, thp):
                 q += wj * np.reshape(ss.multivariate_normal.pdf(th, mean=mj, cov=cov), -1)
-            wref = pd / q
-            if not np.allclose(w, wref, rtol=1e-8, atol=0):
-                k = int(np.argmax(np.abs(w - wref) / wref))
+            ok = (pd > 0) & (q > 0)            # densities that underflow in floating point are not compared
+            if not ok.all():
+                labels.append('underflowing-density-skipped')
+            with np.errstate(all='ignore'):
+                wref = np.where(ok, pd / np.where(q > 0, q, 1.0), w)
+            if not np.allclose(w[ok], wref[ok], rtol=1e-8, atol=0):
+                k = int(np.flatnonzero(ok)[np.argmax(np.abs(w[ok] - wref[ok]) / wref[ok])])
                 raise Violation('C07:importance-weights', 'population %d particle %d has weight %r, prior density / mixture density of the previous population is %r (ratio %.6g); %s'
                                 % (i, k, w[k], wref[k], w[k] / wref[k], ctx))
-    bounded = any(k in ('uniform', 'child-unif') for k in _kinds(case))
+    bounded = any(k in ('uniform', 'child-unif', 'child-scale') for k in _kinds(case))
     hier = any(k.startswith('child') for k in _kinds(case))
     if bounded:
         labels.append('bounded-prior')
@@ -219,8 +233,8 @@ def run_case(case):
 
 CHECK = Check(
     P, 'exploration',
-    rule=('Hypothesis-generated models with 1-3 parameters whose priors are uniform (bounded), normal (unbounded), normal-with-parent-location '
-          'or uniform-with-parent-location (hierarchical, bounded), scalar or vector simulator output; n_samples 2-16 (thorough 25; part smc-large: '
+    rule=('Hypothesis-generated models with 1-3 parameters whose priors are uniform (bounded), normal (unbounded), normal-with-parent-location, '
+          'uniform-with-parent-location or normal-with-parent-SCALE (hierarchical, bounded), scalar or vector simulator output; n_samples 2-16 (thorough 25; part smc-large: '
           '257-316 particles), batch_size 1-15, 1-4 rounds given as non-increasing pilot-percentile thresholds or as quantile lists, an '
           'optional continued sample() call on the same sampler with 1-2 further thresholds. Non-trivial = >= 2 rounds with a bounded or '
           'hierarchical prior.'),
